@@ -109,7 +109,7 @@ def main():
                 M.notes.append(f"suite under contracts: {spec.get('_suite')}")
         else:
             cases = mod.cases(M)
-        n = 0
+        n = nhang = 0
         budget = float(getattr(mod, "CASE_CPU_BUDGET_S", 20))
         signal.signal(signal.SIGVTALRM, _on_alarm)
         M.rearm = lambda: signal.setitimer(signal.ITIMER_VIRTUAL, budget)
@@ -126,6 +126,12 @@ def main():
                 M.viol(f"{spec['prop']}/hang:{e.where}", f"call did not return within {budget:.0f} s of CPU time (outermost pendulum frame: {e.where})",
                        stack=e.stack)
                 M.count("hangs")
+                nhang += 1
+                if nhang >= 3:
+                    # every further hanging case costs the full budget: stop this shard with what it has (the
+                    # violation decides; running into the shard's wall-clock limit would lose the witnesses)
+                    M.notes.append("shard stopped after 3 hanging cases")
+                    break
             except Exception:
                 M.count("harness_error")
                 if len(M.notes) < 5:
